@@ -8,7 +8,7 @@ RULES = {
 
 def run(ctx):
     astar_checks.run_family(ctx, 'c16', 'P_C16')
-    glue_checks.run_glue(ctx, 'c16', 60 if ctx.quick else 900)
+    glue_checks.run_glue(ctx, 'c16', 60 if ctx.quick else 450)
     ctx.trusted += ['implementation-level model coq/AStarImpl.v (tied to parsing.h by trace validation: every pop, its in/out score, span, head, the status, the goal derivations and scores of each run are accepted by the model inside coqc)',
                     'harness/driver.cpp + depccg_verif_rt.py (ctypes bridge, compiled against the repository header on every run) and the DEPCCG_VERIF pop hook',
                     'float32 arithmetic is exact on the dyadic score grid used (scores k/8, |k| small); rounding on arbitrary reals is not modelled']
